@@ -341,6 +341,21 @@ async def settle(link, limit=SETTLE_LIMIT):
     return None
 
 
+async def settle_io(link, rounds=4):
+    """settle() for jobs with real sockets in them (the stand-in X server): quiet in loop turns AND over a few
+    short real sleeps"""
+    total = 0
+    quiet = 0
+    while quiet < rounds and total < 400:
+        before = (link.out_bytes, len(link.to_mini))
+        t = await settle(link)
+        await asyncio.sleep(0.004)
+        moved = link.pump()
+        total += 1
+        quiet = quiet + 1 if (not moved and before == (link.out_bytes, len(link.to_mini))) else 0
+    return t
+
+
 class Ctl:
     """everything one connection's job needs"""
     pass
@@ -381,12 +396,22 @@ def alg_kw(comp):
 
 
 def host_key_pair():
-    """(asyncssh private key, PyCA private key) for the two roles"""
+    """(asyncssh private key, PyCA private key) for the two roles; the PyCA key is fixed so that payloads built
+    in the parent process can name it"""
     asyncssh, M, S = _imports()
     if 'a' not in _KEYS:
+        from cryptography.hazmat.primitives.asymmetric import ed25519
         _KEYS['a'] = asyncssh.generate_private_key('ssh-ed25519')
-        _KEYS['c'] = S.crypto_key(b'ssh-ed25519')
+        _KEYS['c'] = ed25519.Ed25519PrivateKey.from_private_bytes(bytes(range(32)))
     return _KEYS['a'], _KEYS['c']
+
+
+def mini_host_key_blob():
+    M = _imports()[1]
+    return M.host_key_blob(host_key_pair()[1])
+
+
+X11_COOKIE_MARK = b'@C10-X11-COOKIE@'          # 16 bytes: replaced by the cookie of the x11-req at run time
 
 
 async def until(link, cond, what, turns=4000):
@@ -484,6 +509,17 @@ async def open_server_role(phase, seed, chunk, job=None):
         def unix_connection_requested(self, dest_path):
             return False
 
+    c.gate, c.suspended = None, []
+    susp = (job or {}).get('suspend')
+    if susp:
+        c.gate = asyncio.get_running_loop().create_future()
+        orig_cb = getattr(Srv, susp)
+
+        async def suspended_cb(self, *a):
+            c.suspended.append(susp)
+            await c.gate                              # completes only after the hostile input was handled
+            return orig_cb(self, *a)
+        setattr(Srv, susp, suspended_cb)
     akey, _ = host_key_pair()
     c.acc = await asyncssh.listen('mem', 22, tunnel=link, server_factory=Srv, encoding=None,
                                   server_host_keys=[akey], **alg_kw(comp))
@@ -572,8 +608,19 @@ async def open_client_role(phase, seed, chunk, job=None):
         def password_change_requested(self, prompt, lang):
             return 'old', 'new'
 
+    c.gate, c.suspended = None, []
+    susp = (job or {}).get('suspend')
+
     def hk_handler(added, removed, retained, revoked):
         c.hostkeys_calls.append((len(added), len(removed), len(retained), len(revoked)))
+    if susp == 'server_host_keys_handler':
+        c.gate = asyncio.get_running_loop().create_future()
+        sync_handler = hk_handler
+
+        async def hk_handler(added, removed, retained, revoked):      # noqa: F811
+            c.suspended.append(susp)
+            await c.gate
+            sync_handler(added, removed, retained, revoked)
 
     if raw:
         trusted = None
@@ -633,10 +680,14 @@ async def open_client_role(phase, seed, chunk, job=None):
     if phase == 'authed':
         await settle(link)
         return c
+    c.x11_cookie = None
 
     class CS(asyncssh.SSHClientSession):
         pass
-    opening = asyncio.ensure_future(c.cconn.create_session(CS, encoding=None))
+    x11_kw = {}
+    if phase == 'x11':
+        x11_kw = await start_x_server(c)
+    opening = asyncio.ensure_future(c.cconn.create_session(CS, encoding=None, **x11_kw))
     if not await until(link, lambda: got(M.MSG_CHANNEL_OPEN), 'channel open'):
         raise RuntimeError('bring-up: no CHANNEL_OPEN')
     r = M.Reader(c.last, 1)
@@ -652,8 +703,13 @@ async def open_client_role(phase, seed, chunk, job=None):
             if tt == M.MSG_CHANNEL_REQUEST:
                 rr = M.Reader(p, 1)
                 rr.get_u32()
-                rr.get_string()
-                if rr.get_bool():
+                rtype = rr.get_string()
+                want = rr.get_bool()
+                if rtype == b'x11-req':
+                    rr.get_bool()
+                    rr.get_string()
+                    c.x11_cookie = bytes.fromhex(rr.get_string().decode('ascii'))
+                if want:
                     mini.send(M.channel_success(c.chan))
         return opening.done()
     if not await until(link, serve, 'create_session'):
@@ -667,6 +723,36 @@ async def open_client_role(phase, seed, chunk, job=None):
         chan.write(b'hello' * 10)                     # makes the send loop run with the peer's parameters
     await settle(link)
     return c
+
+
+async def start_x_server(c):
+    """a stand-in X server on 127.0.0.1:6000+n and an Xauthority file naming its cookie; returns the
+    create_session() options that switch X11 forwarding on"""
+    import tempfile
+    loop = asyncio.get_running_loop()
+    c.x_received = bytearray()
+
+    class XProto(asyncio.Protocol):
+        def data_received(self, data):
+            c.x_received += data
+    base = 300 + (os.getpid() * 7) % 500
+    for dpy in list(range(base, base + 40)):
+        try:
+            c.x_server = await loop.create_server(XProto, '127.0.0.1', 6000 + dpy)
+            break
+        except OSError:
+            continue
+    else:
+        raise RuntimeError('bring-up: no free port for the stand-in X server')
+    c.x_tmp = tempfile.mkdtemp(prefix='c10-x11-')
+    path = os.path.join(c.x_tmp, 'Xauthority')
+
+    def s16(b):
+        return len(b).to_bytes(2, 'big') + b
+    with open(path, 'wb') as f:
+        f.write((65535).to_bytes(2, 'big') + s16(b'') + s16(str(dpy).encode()) + s16(b'MIT-MAGIC-COOKIE-1') +
+                s16(bytes(range(0xa0, 0xb0))))
+    return {'x11_forwarding': True, 'x11_display': '127.0.0.1:%d' % dpy, 'x11_auth_path': path}
 
 
 def exc_class(e):
@@ -707,10 +793,12 @@ async def run_job(job):
             link.deliver(data)
             nin = len(data)
         else:
+            if getattr(c, 'x11_cookie', None) and X11_COOKIE_MARK in data:
+                data = data.replace(X11_COOKIE_MARK, c.x11_cookie)
             before = len(c.mini._out)
             c.mini.send_raw_packet(data)
             nin = len(c.mini._out) - before
-        turns = await settle(link)
+        turns = await (settle_io(link) if job.get('real_io') else settle(link))
         step = {'in': nin, 'out': link.out_bytes - out0, 'turns': turns, 'closed': link.closed}
         if measure:
             cur1, peak = tracemalloc.get_traced_memory()
@@ -722,6 +810,16 @@ async def run_job(job):
         tracemalloc.stop()
     res['sent'] = len(res['steps'])
     res['closed_by_input'] = link.closed
+    res['suspended'] = list(getattr(c, 'suspended', []))
+    if getattr(c, 'gate', None) is not None and not c.gate.done():
+        await settle(link)                          # the connection (if it died) finishes its cleanup first ...
+        c.gate.set_result(None)                     # ... then the application callback completes
+        await settle(link)
+    if getattr(c, 'x_server', None) is not None:
+        res['x_server_received'] = len(c.x_received)
+        c.x_server.close()
+        import shutil
+        shutil.rmtree(c.x_tmp, ignore_errors=True)
     try:
         v = c.conn.get_extra_info('client_version' if role == 'server' else 'server_version')
         res['version'] = v if v is None else str(v)
@@ -891,6 +989,8 @@ def run_parser_stage(job):
             cases, raised, stats, inputs = P.socks_run(rng, n)
             bad = [('SSHSOCKSForwarder.data_received', b'|'.join(ch), exc) for ch, exc in raised]
             rec['chunks'] = [[c.hex() for c in ch] for ch, _ in raised]
+        elif stage == 'x11':
+            cases, bad, stats = P.x11_run(rng, n)
         elif stage == 'sftp_framing':
             cases, bad, stats = asyncio.run(P.sftp_framing_run(rng, n, root))
         elif stage == 'copy':
